@@ -668,6 +668,12 @@ func pollScenario(out *vh.Out, w *world, sc *scenario, r *vh.Rng, polls int) {
 		var progress uint64
 		var newCert bool
 		res := "ok"
+		h0, m0 := -1, -1
+		if len(e.servers) == 1 {
+			if _, h, m, _, ok := rig.PeerState(e.servers[0].host.ID()); ok {
+				h0, m0 = h, m
+			}
+		}
 		func() {
 			defer func() {
 				if p := recover(); p != nil {
@@ -684,6 +690,13 @@ func pollScenario(out *vh.Out, w *world, sc *scenario, r *vh.Rng, polls int) {
 		netnew := int64(store1-store0) - int64(e.localInPoll)
 		out.Line("poll sc=%d k=%d next0=%d store0=%d next1=%d store1=%d netnew=%d reqs=%d late=%d ret=%d new=%d res=%s",
 			sc.id, k, next0, store0, next1, store1, netnew, e.reqs, e.localLastReq, progress, b2i(newCert), res)
+		if h0 >= 0 {
+			// a single known peer: whatever the store gained from the network in this poll came from it — how did
+			// the peer tracker record that peer? (hits/misses of its sliding window before and after)
+			if _, h1, m1, _, ok := rig.PeerState(e.servers[0].host.ID()); ok {
+				out.Line("pstat sc=%d k=%d netnew=%d hits0=%d misses0=%d hits1=%d misses1=%d window=%d", sc.id, k, netnew, h0, m0, h1, m1, polling.VerifHitMissWindow)
+			}
+		}
 	}
 }
 
